@@ -127,8 +127,19 @@ func (p *Point) scalarMulGeneric(api frontend.API, p1 *Point, scalar frontend.Va
 // curve: parameters of the Edwards curve
 // scal: scalar as a SNARK constraint
 // Standard left to right double and add
+//
+// NB: the hinted variants (scalarMulFakeGLV, scalarMulGLV) are not used here.
+// They check the decomposition of the scalar (s1 + s2*s == k*Order, resp.
+// -s1 + λ*s2 == s + k*Order) in the native field with an unconstrained
+// quotient k. As Order is invertible in the native field, the relation can be
+// satisfied for any (s1, s2), and range checking k does not help because
+// s2*s exceeds the native modulus: a malicious prover can make the circuit
+// accept [t]P for a scalar t != s. Until the decomposition is checked over
+// the integers (or modulo Order with non-native arithmetic), the scalar
+// multiplication is done with the plain double-and-add algorithm, which uses
+// no hint.
 func (p *Point) scalarMul(api frontend.API, p1 *Point, scalar frontend.Variable, curve *CurveParams, endo ...*EndoParams) *Point {
-	return p.scalarMulFakeGLV(api, p1, scalar, curve)
+	return p.scalarMulGeneric(api, p1, scalar, curve)
 }
 
 // doubleBaseScalarMul computes s1*P1+s2*P2
